@@ -15,7 +15,7 @@
 //! * a peer record is accepted by the decoder of its own format only (legacy vs interop), and never when
 //!   the peer id inside differs from the signer (hand-encoded payloads; the same builder with the
 //!   signer's id is the accepted control).
-//! * every single-byte mutation (4 values per position; thorough: all 255 values for 24 envelopes and 24 records), truncation,
+//! * every single-byte mutation (4 values per position; thorough: all 255 values for 12 envelopes and 12 records), truncation,
 //!   deletion and insertion applied to an encoded envelope: decoding fails, or extraction/record
 //!   reconstruction fails, or the accepted result has exactly the original (peer id, seq, addresses)
 //!   resp. (payload, signing key).
@@ -24,7 +24,7 @@
 use std::sync::atomic::AtomicU32;
 
 use libp2p_core::{Multiaddr, PeerRecord, SignedEnvelope};
-use libp2p_identity::{Keypair, PeerId};
+use libp2p_identity::PeerId;
 use vmon::{Args, Check, Rng, Sig, Tier, catch, hex, json, pb};
 
 use crate::util::{self, *};
@@ -453,16 +453,16 @@ pub fn run(args: &Args) -> i32 {
          non-trivial = every case (each executes the genuine-accept control); distinct by encoded bytes",
     );
     let thorough = args.tier == Tier::Thorough;
-    let n_sig = budget(args, 8, 400, 6_000);
+    let n_sig = budget(args, 8, 400, 2_500);
     vmon::par_cases(&check, n_sig, args.threads, |i, rng| {
         // RSA is slow to sign: 1 case in 32
         let kind = if i % 32 == 31 { RSA } else { (i % 3) as usize };
         signature_case(&check, kind, rng, thorough);
     });
-    let n_env = budget(args, 4, 140, 800);
-    vmon::par_cases(&check, n_env, args.threads, |i, rng| envelope_case(&check, rng, i % 16 == 0, thorough, thorough && i < 24));
-    let n_rec = budget(args, 4, 140, 800);
-    vmon::par_cases(&check, n_rec, args.threads, |i, rng| record_case(&check, rng, i % 16 == 0, thorough, thorough && i < 24));
-    check.note("exhaustive", json!("single-byte mutations: all positions x 4 values (thorough: all 255 values for 24+24 encodings); cases sampled"));
+    let n_env = budget(args, 4, 140, 400);
+    vmon::par_cases(&check, n_env, args.threads, |i, rng| envelope_case(&check, rng, i % 16 == 0, thorough, thorough && i < 12));
+    let n_rec = budget(args, 4, 140, 400);
+    vmon::par_cases(&check, n_rec, args.threads, |i, rng| record_case(&check, rng, i % 16 == 0, thorough, thorough && i < 12));
+    check.note("exhaustive", json!("single-byte mutations: all positions x 4 values (thorough: all 255 values for 12+12 encodings); cases sampled"));
     check.finish()
 }
